@@ -9,7 +9,7 @@ from . import oalsyn, prebuildfix, c11_consistency
 from .oalgen import node_span, EXPRESSION_NODES, STATEMENT_NODES
 from .gen_schema import Schema
 from .core import Violation, hyp_run, Res, exc_bucket, TimeLimit
-from .c15_callables import CONSTS, OAL_TY
+from .c15_callables import CONSTS, CONSTS2, OAL_TY
 
 PROPERTY = 'C06'
 RULE = ('the fixtures of C05 (generated name-resolved bodies in function, bridge, class/instance operation and derived '
@@ -259,7 +259,7 @@ class Expect(object):
             if e['namespace'] == 'Color':
                 ty = 'Color'
             else:
-                ty = dict((n, tt) for n, tt, _v in CONSTS).get(e['name'])
+                ty = dict((n, tt) for n, tt, _v in (CONSTS2 if e['namespace'] == 'Sizes' else CONSTS)).get(e['name'])
         elif t == 'VariableAccessNode':
             d = self.sc.find(e['variable_name'])
             ty = d['ty'] if d and d['ty'] != 'array' else None
